@@ -13,10 +13,18 @@ CHECKS = {
    technique="TLA+ evaluator spec (GuardEval.Denote) model-checked over the single-clause space with TLC; TLC-generated cases replayed into run_checks; recorded evaluations trace-validated by TraceEval",
    text="TLC enumerates every single-clause program x document state of MC_E1 (exhaustive in the thorough tier), checks the documented corner rules as invariants of the specification and emits each state as a replay case that is executed against the real evaluator (status and every value-check outcome compared). In the other direction seeded random rule files (when/blocks/named rules/lets/filters/type blocks/keys filters) are run through run_checks and every recorded evaluation - per-rule status, file status, error-vs-no-error and the whole record tree - is validated by TLC against Denote. Model checking is the right level: the property quantifies over programs x inputs and needs an independent executable reading of the semantics, which is the TLA+ specification.",
    note=NOTE_BASE + "Where the documentation is silent the specification follows the code (IMPL-tagged rules); such rules pin behaviour but cannot expose a defect of the code they were copied from."),
+ "C03": dict(level="model_checking", engine="spec+replay+trace", design="5/C03",
+   technique="negation laws as TLC invariants over the single-clause space of MC_E1; every polarity replayed into run_checks; recorded negation groups validated by the TraceNeg trace specification",
+   text="TLC checks on the specification, for every state of MC_E1, that prefix not equals operator-level not, that negating twice restores the original, that SKIP/errors are preserved and that a single comparable value flips PASS/FAIL (not X > v iff X <= v); each state is replayed against the real evaluator in its 2-4 polarities and the relation is re-checked directly between the implementation's runs. Random programs with one clause (in rule bodies, blocks, when conditions, filters) negated both ways, plus `not R` rule references, are recorded and the laws are evaluated by the trace specification TraceNeg on the implementation's own observations.",
+   note=NOTE_BASE + "The single-comparable-value flip law is decided on the enumerated space only; on random programs the checked relations are neg==opneg, double negation and named-rule negation."),
+ "C13": dict(level="model_checking", engine="spec+replay", design="5/C13",
+   technique="algebra laws (trichotomy, <=/>= decomposition, order, reflexivity/symmetry of ==, range/regex/in membership, cross-type) evaluated by TLC over the full value x operator x rhs matrix of MC_C13; every cell replayed into run_checks",
+   text="Exhaustive in both tiers: TLC enumerates every ordered pair of the 38-value universe (boundary ints, finite floats, unicode/prefix strings, bools, null, lists, maps) x six operators x both polarities, the four range bracket forms, a regex table and in-lists, with the left side loaded from the data and the right side a literal, plus all pairs with both sides loaded from the data; the laws of the property are evaluated on the whole matrix and every cell is executed against the real evaluator and compared. A law broken on the matrix is therefore broken by the implementation; such laws are reported by name and input class.",
+   note=NOTE_BASE + "i64/f64 arithmetic and fancy_regex are trusted; arbitrary regexes are outside the modelled fragment."),
 }
 
 m = {"version": 1,
-     "setup_cmd": "cd /verif/harness && cargo build --offline && cd /verif/spec && for f in GuardValues GuardOps GuardEval TraceEval MC_E1; do tla-sany $f.tla > /dev/null || exit 1; done",
+     "setup_cmd": "cd /verif/harness && cargo build --offline && cd /verif/spec && for f in GuardValues GuardOps GuardEval TraceEval TraceNeg MC_E1 MC_C13; do tla-sany $f.tla > /dev/null || exit 1; done",
      "hooks": {"guard": "guard_verif",
                "enable": "rustflags = [\"--cfg\", \"guard_verif\"] in /verif/harness/.cargo/config.toml (checks build the cfn-guard library through the harness path dependency on /repo/guard)",
                "baseline_off_cmd": "cd /repo && cargo nextest run --workspace --no-fail-fast --test-threads 8 --offline || cargo test --workspace --no-fail-fast --offline",
